@@ -373,7 +373,7 @@ _SEG_URL = st.lists(st.sampled_from(
 ).map("".join)
 _SEG_SCP = st.text(alphabet="abrepo.git~-_ %,=+éλ", min_size=1, max_size=6)
 _HOST = st.sampled_from(["h", "example.com", "git.example.org", "10.0.0.1",
-                         "localhost", "xn--nxasmq6b.example"])
+                         "localhost", "xn--nxasmq6b.example", "EXAMPLE.com"])
 _USER = st.sampled_from([None, None, "git", "u", "user.name", "u-1"])
 
 
@@ -469,15 +469,32 @@ def run_parent(case, env):
     else:
         target = _bzr_target(tgt)
     url = _bzr_url(target, case["branch"], case["ref"])
+    if case.get("remote"):
+        # the branch already follows a differently named remote, and an
+        # unrelated remote 'origin' exists (git config written by the harness
+        # with dulwich, as `git remote add` would have)
+        bname = (name if name is not None else br.name).encode("utf-8")
+        cfg = br.repository._git.get_config()
+        cfg.set((b"remote", b"origin"), b"url",
+                b"https://unrelated.example.com/other.git")
+        cfg.set((b"branch", bname), b"remote",
+                case["remote"].encode("utf-8"))
+        br.repository._write_git_config(cfg)
+        br = (wt.controldir.open_branch(name=name) if name is not None
+              else _mod_branch.Branch.open(here))
     if case["rounds"] == 2:
         # an earlier, different parent must not shine through
         br.set_parent(case["first"])
     br.set_parent(url)
+    # the object that wrote it reads it back too
+    same = br.get_parent()
     cd2 = controldir.ControlDir.open(here)
     b2 = cd2.open_branch(name=name) if name is not None else cd2.open_branch()
     got = b2.get_parent()
     check(isinstance(got, str), "C36/get_parent-not-a-url",
           [url, repr(got)])
+    check(same == got, "C36/get_parent-differs-on-the-writing-object",
+          [url, same, got])
     base, params = _split_params(got)
     want_sel = _expected_selector(case["branch"], case["ref"])
     got_sel = _norm_selector(params.get("branch"), params.get("ref"))
@@ -561,7 +578,9 @@ def gen_parent(draw):
         "git://old.example.com/r,ref=refs%2Ftags%2Fstale",
         "https://old.example.com/r.git"]))
     dirname = draw(st.sampled_from(["r", "r", "w t", "é", "a,b", "r%41"]))
-    return {"name": name, "target": target, "branch": branch, "ref": ref,
+    return {"remote": draw(st.sampled_from([None, None, None, "upstream",
+                                            "up/stream"])),
+            "name": name, "target": target, "branch": branch, "ref": ref,
             "rounds": rounds, "first": first, "dirname": dirname}
 
 
